@@ -1,7 +1,7 @@
 (* C09GenGlue.v — the text loadprint_gen writes, as blank runs and lexemes; its
    tokens are those of a load-file document (C09GenParse), which denotes the warrior. *)
 From GM Require Import Base Text Token Lexer Scanner ExprSpec ExprEval ForExpand Parser Sim Compile
-     Meaning Render LoadPrint AsmSpec C05Lexer C03Lexer C16Proof C09Parse C09Lex C09Compile C09GenParse C09GenCompile C09GenLex.
+     Meaning Render LoadPrint AsmSpec C05Lexer C03Lexer C16Proof ScanProof C09Parse C09Lex C09Compile C09Asm C09GenParse C09GenCompile C09GenLex.
 From Coq Require Import Lia ZifyN ZifyNat ZifyBool.
 Ltac Zify.zify_post_hook ::= Z.div_mod_to_equations.
 Open Scope N_scope.
@@ -535,14 +535,14 @@ Proof.
     rewrite (IB _ _ (HO k)), (IB _ _ (proj1 (HG (k + 3)))), (IB _ _ (HO (k + 6))), (IB _ _ (proj1 (HG (k + 7)))).
     rewrite (fld_its_toks _ sa m (i_a i) (proj1 (HG (k + 4)))).
     cbn [ptoks elem_toks]. destruct (ly_comment L k) as [c|] eqn:Ec.
-    + destruct (remark_shape c (lok_comment L HL k c Ec)) as [Es _].
+    + destruct (lok_comment L HL k c Ec) as [body [Eb _]]. subst c. cbn [tl].
       rewrite (fld_its_toks _ sb m (i_b i) (proj1 (HG (k + 8)))).
       cbn [fst snd absorb ptoks]. rewrite (hblank_newlines _ (proj1 (HG (k + 11)))).
-      rewrite <- !app_assoc. cbn [app]. rewrite Es at 2. reflexivity.
+      rewrite <- !app_assoc. cbn [app]. reflexivity.
     + destruct (fld_last_facts (ly_gap L (k + 8)) sb m (i_b i) G8) as [_ [_ [_ Ab]]]. rewrite Ab. cbn [fst].
       pose proof (fld_its_toks _ sb m (i_b i) (proj1 (HG (k + 8)))) as Fb. unfold fld_its in Fb. rewrite flat_map_app in Fb.
       cbn [flat_map] in Fb. rewrite app_nil_r in Fb. unfold item_toks at 2 in Fb.
-      rewrite <- !app_assoc. cbn [app]. rewrite <- Fb. rewrite <- ?app_assoc. reflexivity.
+      rewrite <- !app_assoc. cbn [app]. rewrite <- Fb. rewrite <- ?app_assoc. rewrite ?app_nil_r. reflexivity.
   - destruct (ly_comment L k) as [c|] eqn:Ec.
     + destruct (remark_shape c (lok_comment L HL k c Ec)) as [_ [Hb _]]. cbn [fst snd].
       split; [exact G11|]. split; [exact Hb|eexists _, _; split; reflexivity].
@@ -557,19 +557,18 @@ Proof.
         cbn [piece_ok first_of hd]. split; [|reflexivity]. apply Forall_app. split; [exact Hb|].
         eapply Forall_impl; [|exact Hp]. intros x [_ Hx]. exact Hx.
     + destruct (fld_last_facts (ly_gap L (k + 8)) sb m (i_b i) G8) as [_ [_ [_ Ab]]]. rewrite Ab. cbn [fst snd].
-      replace ((([(lead ++ ly_optgap L k, PWord (gen_op L k legacy i)); (ly_gap L (k + 3), PSym am)] ++
-                fld_its (ly_gap L (k + 4)) sa m (i_a i) ++
-                [(ly_optgap L (k + 6), C03Lexer.PComma); (ly_gap L (k + 7), PSym bm)] ++ fld_init (ly_gap L (k + 8)) sb m (i_b i)) ++
-               [(fst (fld_lastitem (ly_gap L (k + 8)) sb m (i_b i)), snd (fld_lastitem (ly_gap L (k + 8)) sb m (i_b i)))]))
-        with ([(lead ++ ly_optgap L k, PWord (gen_op L k legacy i)); (ly_gap L (k + 3), PSym am)] ++
-              fld_its (ly_gap L (k + 4)) sa m (i_a i) ++
-              ([(ly_optgap L (k + 6), C03Lexer.PComma); (ly_gap L (k + 7), PSym bm)] ++ fld_its (ly_gap L (k + 8)) sb m (i_b i) ++ [])).
-      2: { unfold fld_its. rewrite <- surjective_pairing. rewrite app_nil_r, <- !app_assoc. reflexivity. }
+      match goal with |- items_ok ?X _ =>
+        assert (E : X = [(lead ++ ly_optgap L k, PWord (gen_op L k legacy i)); (ly_gap L (k + 3), PSym am)] ++
+                        fld_its (ly_gap L (k + 4)) sa m (i_a i) ++
+                        ([(ly_optgap L (k + 6), C03Lexer.PComma); (ly_gap L (k + 7), PSym bm)] ++ fld_its (ly_gap L (k + 8)) sb m (i_b i) ++ []))
+          by (unfold fld_its; rewrite <- surjective_pairing; rewrite app_nil_r, <- !app_assoc; reflexivity);
+        rewrite E; clear E end.
       apply HeadOK; [exact Hlead| |apply CommaFirst].
       apply TailOK; [|exact I]. cbn [flat_map app]. rewrite <- app_assoc.
       apply first_blank_sep; [apply hblank_spaces; exact Hp|repeat split; discriminate].
   - intros lead Hlead. fold sa sb am bm. destruct (ly_comment L k) as [c|] eqn:Ec.
     + cbn [fst snd ptext]. apply HeadOK; [exact Hlead| |apply CommaFirst].
+      rewrite <- (app_nil_r (fld_its (ly_gap L (k + 8)) sb m (i_b i))).
       apply TailOK; [|exact I]. cbn [flat_map app]. apply first_gap_sep. exact HL.
     + destruct (fld_last_facts (ly_gap L (k + 8)) sb m (i_b i) G8) as [F1 [F2 [F3 _]]].
       apply HeadOK; [exact Hlead| |apply CommaFirst].
@@ -583,3 +582,444 @@ Proof.
       destruct (psym_ok (i_bm i) _ S) as [P1 P2]. split; [exact P2|]. split; [exact P1|].
       apply fld_init_ok. exact G8.
 Qed.
+
+(* ---------- the elements of the joined document ---------- *)
+Definition line_elem (x : elem) : Prop := match x with EInstr _ _ _ _ _ _ | EDir _ _ => True | _ => False end.
+
+Section Elems.
+Variable L : layout.
+Hypothesis HL : layout_ok L.
+
+Lemma fill_es k lead : let '(_, _, fe) := fill_g L k lead in
+  fe = [] \/ fe = [EBlank] \/ exists c, fe = [EComment c] /\ comment_plain c.
+Proof.
+  unfold fill_g. destruct (ly_fill L k) as [[c|]|] eqn:E; [|auto|auto].
+  right. right. exists (c ++ ly_eolpre L (k + 1)). split; [reflexivity|].
+  destruct (lok_fill L HL k c E) as [body [-> [_ Hp]]]. unfold comment_plain in *.
+  (* the first seven characters decide *)
+  pose proof (lok_eolpre L HL (k + 1)) as Hb.
+  assert (G : forall p c0 pre, has_prefix p c0 = false -> Forall (fun x => ~ In x p) pre -> has_prefix p (c0 ++ pre) = false).
+  { induction p as [|x p IH]; intros c0 pre H Hpre; [discriminate H|]. destruct c0 as [|y c1].
+    - cbn [app]. destruct pre as [|z pre']; [reflexivity|]. cbn [has_prefix]. inversion Hpre as [|z' p' Hz _]; subst.
+      destruct (N.eqb_spec x z) as [->|_]; [exfalso; apply Hz; left; reflexivity|reflexivity].
+    - cbn [app has_prefix] in *. destruct (x =? y); [|reflexivity]. cbn [andb] in *. apply IH; [exact H|].
+      eapply Forall_impl; [|exact Hpre]. intros a Ha Hin. apply Ha. right. exact Hin. }
+  apply G; [exact Hp|]. eapply Forall_impl; [|exact Hb]. intros a [Ha _] Hin.
+  cbn in Hin. unfold is_space_a in Ha. repeat (destruct Hin as [<-|Hin]; [cbn in Ha; discriminate Ha|]). exact Hin.
+Qed.
+
+Lemma shape_cons_line x es : line_elem x -> (es = [] \/ shape_ok es) -> shape_ok (x :: es).
+Proof. intros Hx [->|H]; [destruct x; try contradiction; exact I|]. destruct es as [|y t]; [destruct H|]. split; [destruct x; try contradiction; exact I|exact H]. Qed.
+
+Lemma join_shape ls : ls <> [] -> (forall l pre, In l ls -> line_elem (gl_elem l pre)) -> forall k lead,
+  let '(_, _, es) := join_g L k ls lead in shape_ok es /\ exists x t, es = x :: t /\ line_elem x.
+Proof.
+  induction ls as [|l t IH]; intros Hne Hl k lead; [congruence|]. destruct t as [|l2 t2].
+  - cbn [join_g]. destruct (ly_final_nl L); [destruct (absorb _ _)|]; (split; [apply shape_cons_line; [apply Hl; left; reflexivity|left; reflexivity]|eexists _, _; split; [reflexivity|apply Hl; left; reflexivity]]).
+  - change (join_g L k (l :: l2 :: t2) lead) with
+      (let '(p', lead1) := absorb (snd (gl_last l)) (ly_eolpre L k) in
+       let '(fi, lead2, fe) := fill_g L (k + 3) lead1 in
+       let '(ri, cl, re) := join_g L (k + 7) (l2 :: t2) lead2 in
+       (gl_init l lead ++ [(fst (gl_last l), p')] ++ fi ++ ri, cl, gl_elem l (ly_eolpre L k) :: fe ++ re)).
+    destruct (absorb _ _) as [p' lead1]. pose proof (fill_es (k + 3) lead1) as Fe. destruct (fill_g L (k + 3) lead1) as [[fi lead2] fe].
+    specialize (IH ltac:(discriminate) (fun l0 pre H => Hl l0 pre (or_intror H)) (k + 7) lead2).
+    destruct (join_g L (k + 7) (l2 :: t2) lead2) as [[ri cl] re]. destruct IH as [Sh [x [t' [-> Hx]]]].
+    split; [|eexists _, _; split; [reflexivity|apply Hl; left; reflexivity]].
+    apply shape_cons_line; [apply Hl; left; reflexivity|]. right.
+    destruct Fe as [->|[->|[c [-> _]]]]; cbn [app]; [exact Sh| |].
+    + split; [destruct x; try contradiction; exact I|exact Sh].
+    + split; [exact I|exact Sh].
+Qed.
+
+Lemma join_elem_ok ls : (forall l pre, In l ls -> hblank pre -> elem_ok (gl_elem l pre)) -> forall k lead,
+  let '(_, _, es) := join_g L k ls lead in Forall elem_ok es.
+Proof.
+  induction ls as [|l t IH]; intros Hl k lead; [constructor|]. destruct t as [|l2 t2].
+  - cbn [join_g]. destruct (ly_final_nl L); [destruct (absorb _ _)|]; (constructor; [apply Hl; [left; reflexivity|try apply (lok_eolpre L HL); constructor]|constructor]).
+  - change (join_g L k (l :: l2 :: t2) lead) with
+      (let '(p', lead1) := absorb (snd (gl_last l)) (ly_eolpre L k) in
+       let '(fi, lead2, fe) := fill_g L (k + 3) lead1 in
+       let '(ri, cl, re) := join_g L (k + 7) (l2 :: t2) lead2 in
+       (gl_init l lead ++ [(fst (gl_last l), p')] ++ fi ++ ri, cl, gl_elem l (ly_eolpre L k) :: fe ++ re)).
+    destruct (absorb _ _) as [p' lead1]. pose proof (fill_es (k + 3) lead1) as Fe. destruct (fill_g L (k + 3) lead1) as [[fi lead2] fe].
+    specialize (IH (fun l0 pre H => Hl l0 pre (or_intror H)) (k + 7) lead2).
+    destruct (join_g L (k + 7) (l2 :: t2) lead2) as [[ri cl] re].
+    constructor; [apply Hl; [left; reflexivity|apply (lok_eolpre L HL)]|]. apply Forall_app. split; [|exact IH].
+    destruct Fe as [->|[->|[c [-> _]]]]; repeat constructor.
+Qed.
+End Elems.
+
+(* ---------- the document denotes the warrior ---------- *)
+Section Denote.
+Variable L : layout.
+Hypothesis HL : layout_ok L.
+Variable cfg : config.
+
+Definition line_of (l : gline) (i : instr) : Prop :=
+  forall pre es0 code0, hblank pre -> denotes cfg es0 code0 -> denotes cfg (gl_elem l pre :: es0) (i :: code0).
+
+Lemma fill_denotes k lead es code : denotes cfg es code ->
+  let '(_, _, fe) := fill_g L k lead in denotes cfg (fe ++ es) code.
+Proof.
+  intros H. pose proof (fill_es L HL k lead) as Fe. destruct (fill_g L k lead) as [[fi lead'] fe].
+  destruct Fe as [->|[->|[c [-> Hc]]]]; cbn [app]; [exact H|constructor; exact H|constructor; assumption].
+Qed.
+
+Lemma join_denotes ls : forall code, Forall2 line_of ls code -> forall k lead,
+  let '(_, _, es) := join_g L k ls lead in denotes cfg es code.
+Proof.
+  induction ls as [|l t IH]; intros code H k lead; inversion H as [|l' i t' code' Hl Ht]; subst; [constructor|].
+  destruct t as [|l2 t2].
+  - inversion Ht; subst. cbn [join_g]. destruct (ly_final_nl L); [destruct (absorb _ _)|]; (apply Hl; [try apply (lok_eolpre L HL); constructor|constructor]).
+  - change (join_g L k (l :: l2 :: t2) lead) with
+      (let '(p', lead1) := absorb (snd (gl_last l)) (ly_eolpre L k) in
+       let '(fi, lead2, fe) := fill_g L (k + 3) lead1 in
+       let '(ri, cl, re) := join_g L (k + 7) (l2 :: t2) lead2 in
+       (gl_init l lead ++ [(fst (gl_last l), p')] ++ fi ++ ri, cl, gl_elem l (ly_eolpre L k) :: fe ++ re)).
+    destruct (absorb _ _) as [p' lead1].
+    pose proof (fun es c H => fill_denotes (k + 3) lead1 es c H) as Fd. destruct (fill_g L (k + 3) lead1) as [[fi lead2] fe].
+    specialize (IH code' Ht (k + 7) lead2). destruct (join_g L (k + 7) (l2 :: t2) lead2) as [[ri cl] re].
+    apply Hl; [apply (lok_eolpre L HL)|]. apply Fd. exact IH.
+Qed.
+
+(* the code followed by one more line (the END line of an '88 file) *)
+Lemma join_denotes_then ls dl : forall code, Forall2 line_of ls code -> forall k lead,
+  let '(_, _, es) := join_g L k (ls ++ [dl]) lead in
+  exists body pre, es = body ++ [gl_elem dl pre] /\ denotes cfg body code.
+Proof.
+  induction ls as [|l t IH]; intros code H k lead; inversion H as [|l' i t' code' Hl Ht]; subst.
+  - cbn [app join_g]. destruct (ly_final_nl L); [destruct (absorb _ _)|]; (exists []; eexists; split; [reflexivity|constructor]).
+  - destruct (t ++ [dl]) as [|l2 t2] eqn:Et; [destruct t; discriminate Et|].
+    change (join_g L k ((l :: t) ++ [dl]) lead) with (join_g L k (l :: t ++ [dl]) lead). rewrite Et.
+    change (join_g L k (l :: l2 :: t2) lead) with
+      (let '(p', lead1) := absorb (snd (gl_last l)) (ly_eolpre L k) in
+       let '(fi, lead2, fe) := fill_g L (k + 3) lead1 in
+       let '(ri, cl, re) := join_g L (k + 7) (l2 :: t2) lead2 in
+       (gl_init l lead ++ [(fst (gl_last l), p')] ++ fi ++ ri, cl, gl_elem l (ly_eolpre L k) :: fe ++ re)).
+    destruct (absorb _ _) as [p' lead1].
+    pose proof (fun es c H => fill_denotes (k + 3) lead1 es c H) as Fd. destruct (fill_g L (k + 3) lead1) as [[fi lead2] fe].
+    specialize (IH code' Ht (k + 7) lead2). rewrite ?Et in IH. destruct (join_g L (k + 7) (l2 :: t2) lead2) as [[ri cl] re].
+    destruct IH as [body [pre [-> Hb]]].
+    exists (gl_elem l (ly_eolpre L k) :: fe ++ body), pre. split; [cbn [app]; rewrite <- app_assoc; reflexivity|].
+    apply Hl; [apply (lok_eolpre L HL)|]. apply Fd. exact Hb.
+Qed.
+End Denote.
+
+(* ---------- the lines of a warrior ---------- *)
+Fixpoint gls (L : layout) (k : N) (legacy : bool) (m : N) (code : list instr) : list gline :=
+  match code with
+  | [] => []
+  | i :: t => instr_gl L k legacy m i :: gls L (k + 20) legacy m t
+  end.
+Lemma gls_text L legacy m code : layout_ok L -> forall k, map gl_text (gls L k legacy m code) = gen_lines L k legacy m code.
+Proof. intros HL. induction code as [|i t IH]; intros k; [reflexivity|]. cbn [gls map gen_lines]. rewrite instr_gl_text by exact HL. rewrite IH. reflexivity. Qed.
+Lemma gls_ok L legacy m code : layout_ok L -> forall k, Forall gline_ok (gls L k legacy m code).
+Proof. intros HL. induction code as [|i t IH]; intros k; [constructor|]. cbn [gls]. constructor; [apply instr_gl_ok; exact HL|apply IH]. Qed.
+
+Lemma plain_app p c pre : comment_plain c -> Forall (fun x => ~ In x p) pre -> p = s2t ";assert" -> has_prefix p (c ++ pre) = false.
+Proof.
+  intros Hc Hpre ->. unfold comment_plain in Hc.
+  assert (G : forall p c0 pre, has_prefix p c0 = false -> Forall (fun x => ~ In x p) pre -> has_prefix p (c0 ++ pre) = false).
+  { induction p as [|x p IH]; intros c0 pre0 H Hp; [discriminate H|]. destruct c0 as [|y c1].
+    - cbn [app]. destruct pre0 as [|z pre']; [reflexivity|]. cbn [has_prefix]. inversion Hp as [|z' p' Hz _]; subst.
+      destruct (N.eqb_spec x z) as [->|_]; [exfalso; apply Hz; left; reflexivity|reflexivity].
+    - cbn [app has_prefix] in *. destruct (x =? y); [|reflexivity]. cbn [andb] in *. apply IH; [exact H|].
+      eapply Forall_impl; [|exact Hp]. intros a Ha Hin. apply Ha. right. exact Hin. }
+  apply G; assumption.
+Qed.
+Lemma hblank_not_assert pre : hblank pre -> Forall (fun x => ~ In x (s2t ";assert")) pre.
+Proof.
+  intros H. eapply Forall_impl; [|exact H]. intros a [Ha _] Hin.
+  cbn in Hin. unfold is_space_a in Ha. repeat (destruct Hin as [<-|Hin]; [cbn in Ha; discriminate Ha|]). exact Hin.
+Qed.
+
+Lemma gls_line_of L cfg code : layout_ok L -> forall k,
+  Forall2 (line_of cfg) (gls L k (c_mode cfg =? 0) (c_size cfg) code) code.
+Proof.
+  intros HL. induction code as [|i t IH]; intros k; [constructor|]. cbn [gls]. constructor; [|apply IH].
+  intros pre es0 code0 Hp Hd. cbn [instr_gl gl_elem].
+  destruct (gen_op_facts L k (c_mode cfg =? 0) i 32 HL eq_refl) as [_ [_ Ho]].
+  apply DInstr; [exact Ho| |exact Hd].
+  destruct (ly_comment L k) as [c|] eqn:Ec; [|exact I].
+  destruct (lok_comment L HL k c Ec) as [body [-> [_ Hpl]]]. unfold comment_plain.
+  apply (plain_app (s2t ";assert")); [exact Hpl|apply hblank_not_assert; exact Hp|reflexivity].
+Qed.
+Lemma gls_elems L legacy m code k l pre : layout_ok L -> In l (gls L k legacy m code) ->
+  line_elem (gl_elem l pre) /\ (forall cfg, legacy = (c_mode cfg =? 0) -> m = c_size cfg ->
+     ((c_mode cfg =? 0) = true -> Forall (fun i => legal88 i = true) code) -> hblank pre -> elem_ok (gl_elem l pre)).
+Proof.
+  intros HL. revert k. induction code as [|i t IH]; intros k Hin; [destruct Hin|]. cbn [gls] in Hin. destruct Hin as [<-|Hin].
+  - split; [exact I|]. intros cfg -> -> Hl Hp. cbn [instr_gl gl_elem elem_ok].
+    destruct (gen_op_facts L k (c_mode cfg =? 0) i 32 HL eq_refl) as [_ [_ Ho]].
+    destruct (op_text_tok (c_mode cfg =? 0) i _ ltac:(intros E; specialize (Hl E); inversion Hl; assumption) Ho) as [T1 T2].
+    destruct (amode_tok (i_am i)) as [A1 _]. destruct (amode_tok (i_bm i)) as [B1 _].
+    split; [exact T1|]. split; [exact T2|]. split; [exact A1|]. split; [exact B1|].
+    split; apply fld_plain.
+  - destruct (IH (k + 20) Hin) as [I1 I2]. split; [exact I1|]. intros cfg E1 E2 Hl Hp. apply (I2 cfg E1 E2); [|exact Hp].
+    intros E. specialize (Hl E). inversion Hl; assumption.
+Qed.
+
+Lemma case_kw L which : layout_ok L -> dir_kw_ok (ly_case L 3 (s2t which)) (String.string_of_list_ascii (map Ascii.ascii_of_N (lower (s2t which)))) -> True.
+Proof. auto. Qed.
+Lemma case_org L : layout_ok L -> dir_kw_ok (ly_case L 3 (s2t "ORG")) "org".
+Proof. intros HL. unfold dir_kw_ok. rewrite (recased_lower _ _ (lok_case L HL 3)). reflexivity. Qed.
+Lemma case_end L : layout_ok L -> dir_kw_ok (ly_case L 3 (s2t "END")) "end".
+Proof. intros HL. unfold dir_kw_ok. rewrite (recased_lower _ _ (lok_case L HL 3)). reflexivity. Qed.
+
+(* ---------- the lexer stage on the whole text ---------- *)
+Lemma doc_lex L ls : layout_ok L -> Forall gline_ok ls -> ls <> [] ->
+  let '(fi0, lead0, fe0) := fill_g L 5 [] in
+  let '(its, cl, es) := join_g L 9 ls lead0 in
+  lex_ascii (gen_fill L 5 ++ gen_join L 9 (map gl_text ls)) = Some (doc_toks (fe0 ++ es) (ly_final_nl L)).
+Proof.
+  intros HL Hok Hne.
+  pose proof (fill_text L HL 5 []) as Ft. pose proof (fill_toks L HL 5 []) as Fk.
+  pose proof (fun endt => fill_ok L HL 5 [] endt ltac:(constructor)) as Fo.
+  destruct (fill_g L 5 []) as [[fi0 lead0] fe0].
+  assert (Hl0 : spaces lead0) by (destruct (Fo []) as [A _]; exact A).
+  pose proof (join_text L HL ls Hok 9 lead0) as Jt. pose proof (join_toks L HL ls Hok Hne 9 lead0) as Jk.
+  pose proof (join_ok L HL ls Hok Hne 9 lead0 Hl0) as Jo. pose proof (join_es_ne L 9 ls lead0 Hne) as Jn.
+  destruct (join_g L 9 ls lead0) as [[its cl] es]. cbn [snd] in Jn. destruct Jo as [Jo Jc].
+  cbn [app] in Ft, Fk.
+  assert (Etext : gen_fill L 5 ++ gen_join L 9 (map gl_text ls) = flat_map item_text (fi0 ++ its) ++ closing_text cl).
+  { rewrite flat_map_app, <- app_assoc, Jt, app_assoc, Ft. reflexivity. }
+  assert (Etoks : doc_toks (fe0 ++ es) (ly_final_nl L) = flat_map item_toks (fi0 ++ its) ++ closing_toks cl ++ [tEOF]).
+  { unfold doc_toks. rewrite doc_body_app by exact Jn. rewrite flat_map_app, <- !app_assoc.
+    rewrite (app_assoc (flat_map item_toks its)), Jk. rewrite <- !app_assoc. rewrite (app_assoc (flat_map item_toks fi0)), Fk. reflexivity. }
+  assert (Hok2 : items_ok (fi0 ++ its) (closing_text cl)).
+  { apply items_ok_app; [|exact Jo]. rewrite Jt. destruct (Fo (gen_join L 9 (map gl_text ls))) as [_ [_ C]]. exact C. }
+  rewrite Etext, Etoks. destruct cl as [t|b p]; cbn [closing_text closing_toks closing_ok] in *.
+  - destruct Jc as [Hs Hn]. apply lex_items; assumption.
+  - destruct Jc as [Hs [Hf Hn]]. rewrite <- app_assoc. apply lex_items_eof; assumption.
+Qed.
+
+(* no word of such a document spells FOR or EQU *)
+Lemma elem_words_plain x : elem_ok x ->
+  (match x with EInstr op _ _ _ _ _ => lower_is op "for" = false /\ lower_is op "equ" = false
+              | EDir kw _ => lower_is kw "for" = false /\ lower_is kw "equ" = false | _ => True end) ->
+  Forall (fun t => nonterm t /\ (t_typ t = tokText -> lower_is (t_val t) "for" = false /\ lower_is (t_val t) "equ" = false)) (elem_toks x).
+Proof.
+  intros Hx Hw. destruct x as [op am A bm B cmt|kw e| |c]; cbn [elem_toks].
+  - destruct Hx as [_ [_ [_ [_ [[HA _] [HB _]]]]]].
+    assert (F : forall e, Forall plain_term e -> Forall (fun t => nonterm t /\ (t_typ t = tokText -> lower_is (t_val t) "for" = false /\ lower_is (t_val t) "equ" = false)) e).
+    { intros e He. eapply Forall_impl; [|exact He]. intros t [T1 [T2 T3]]. split; [|intros X; congruence].
+      unfold nonterm, is_terminal. unfold tok_is_expr_term in T1. destruct (t_typ t); try reflexivity; discriminate T1. }
+    apply Forall_app. split; [constructor; [split; [reflexivity|intros _; exact Hw]|constructor; [split; [reflexivity|discriminate]|constructor]]|].
+    apply Forall_app. split; [apply F; exact HA|].
+    apply Forall_app. split; [constructor; [split; [reflexivity|discriminate]|constructor; [split; [reflexivity|discriminate]|constructor]]|].
+    apply Forall_app. split; [apply F; exact HB|].
+    destruct cmt; [constructor; [split; [reflexivity|discriminate]|constructor]|constructor].
+  - destruct Hx as [_ [_ [He _]]]. constructor; [split; [reflexivity|intros _; exact Hw]|].
+    eapply Forall_impl; [|exact He]. intros t [T1 [T2 T3]]. split; [|intros X; congruence].
+    unfold nonterm, is_terminal. unfold tok_is_expr_term in T1. destruct (t_typ t); try reflexivity; discriminate T1.
+  - constructor.
+  - repeat constructor; cbn; discriminate.
+Qed.
+
+Definition wplain (x : elem) : Prop :=
+  match x with
+  | EInstr op _ _ _ _ _ => lower_is op "for" = false /\ lower_is op "equ" = false
+  | EDir kw _ => lower_is kw "for" = false /\ lower_is kw "equ" = false
+  | _ => True
+  end.
+
+Lemma join_forall L (P : elem -> Prop) ls : layout_ok L ->
+  (forall l pre, In l ls -> hblank pre -> P (gl_elem l pre)) -> P EBlank -> (forall c, P (EComment c)) -> forall k lead,
+  let '(_, _, es) := join_g L k ls lead in Forall P es.
+Proof.
+  intros HL. induction ls as [|l t IH]; intros Hl Pb Pc k lead; [constructor|]. destruct t as [|l2 t2].
+  - cbn [join_g]. destruct (ly_final_nl L); [destruct (absorb _ _)|]; (constructor; [apply Hl; [left; reflexivity|try apply (lok_eolpre L HL); constructor]|constructor]).
+  - change (join_g L k (l :: l2 :: t2) lead) with
+      (let '(p', lead1) := absorb (snd (gl_last l)) (ly_eolpre L k) in
+       let '(fi, lead2, fe) := fill_g L (k + 3) lead1 in
+       let '(ri, cl, re) := join_g L (k + 7) (l2 :: t2) lead2 in
+       (gl_init l lead ++ [(fst (gl_last l), p')] ++ fi ++ ri, cl, gl_elem l (ly_eolpre L k) :: fe ++ re)).
+    destruct (absorb _ _) as [p' lead1]. pose proof (fill_es L HL (k + 3) lead1) as Fe. destruct (fill_g L (k + 3) lead1) as [[fi lead2] fe].
+    specialize (IH (fun l0 pre H => Hl l0 pre (or_intror H)) Pb Pc (k + 7) lead2).
+    destruct (join_g L (k + 7) (l2 :: t2) lead2) as [[ri cl] re].
+    constructor; [apply Hl; [left; reflexivity|apply (lok_eolpre L HL)]|]. apply Forall_app. split; [|exact IH].
+    destruct Fe as [->|[->|[c [-> _]]]]; repeat constructor; auto.
+Qed.
+
+Lemma doc_toks_facts es fnl : es <> [] -> Forall (fun x => elem_ok x /\ wplain x) es ->
+  closed_stream (doc_toks es fnl) /\
+  Forall (fun t => t_typ t = tokText -> lower_is (t_val t) "for" = false /\ lower_is (t_val t) "equ" = false) (doc_toks es fnl).
+Proof.
+  intros Hne H.
+  set (P := fun t => nonterm t /\ (t_typ t = tokText -> lower_is (t_val t) "for" = false /\ lower_is (t_val t) "equ" = false)).
+  assert (Hb : Forall P (doc_body es fnl)).
+  { induction es as [|x t IH]; [constructor|]. inversion H as [|x' t' [Hx Hw] Ht]; subst.
+    pose proof (elem_words_plain x Hx Hw) as Ex. destruct t as [|y t2].
+    - cbn [doc_body]. apply Forall_app. split; [exact Ex|]. destruct fnl; repeat constructor; cbn; discriminate.
+    - change (doc_body (x :: y :: t2) fnl) with (elem_toks x ++ nl_tok :: doc_body (y :: t2) fnl).
+      apply Forall_app. split; [exact Ex|]. constructor; [split; [reflexivity|discriminate]|apply IH; [discriminate|exact Ht]]. }
+  unfold doc_toks. split.
+  - apply closed_one; [reflexivity|]. eapply Forall_impl; [|exact Hb]. intros t [A _]. exact A.
+  - apply Forall_app. split; [eapply Forall_impl; [|exact Hb]; intros t [_ A]; exact A|constructor; [discriminate|constructor]].
+Qed.
+
+Lemma gen_op_plain L k legacy i : layout_ok L ->
+  lower_is (gen_op L k legacy i) "for" = false /\ lower_is (gen_op L k legacy i) "equ" = false.
+Proof.
+  intros HL. destruct (gen_op_facts L k legacy i 32 HL eq_refl) as [_ [_ [o1 [o2 [E [L1 [L2 _]]]]]]].
+  assert (El : lower (gen_op L k legacy i) = lower (canon_op legacy i)).
+  { rewrite E. unfold canon_op, lower. rewrite !map_app. fold (lower o1). fold (lower (opcode_name (i_op i))). rewrite L1.
+    destruct legacy; [reflexivity|]. cbn [map]. fold (lower o2). fold (lower (opmode_name (i_md i))). rewrite L2. reflexivity. }
+  unfold lower_is. rewrite El. apply (canon_op_plain legacy i).
+Qed.
+
+(* ---------- the assembler half of C09, for every layout ---------- *)
+Theorem asm_loadprint_gen L cfg code start :
+  layout_ok L -> validate cfg = true -> c_size cfg <= 2147483648 -> wf_code cfg code ->
+  (0 <= start < Z.of_nat (length code))%Z -> N.of_nat (length code) <= c_len cfg ->
+  exists meta, compile_warrior cfg (loadprint_gen L (c_mode cfg =? 0) (c_size cfg) code start) = COk code start meta.
+Proof.
+  intros HL Hv Hm Hw Hs Hlen.
+  set (legacy := c_mode cfg =? 0). set (m := c_size cfg).
+  set (body := gls L 50 legacy m code).
+  set (ls := if legacy then body ++ [dir_gl L (s2t "END") start] else dir_gl L (s2t "ORG") start :: body).
+  assert (Hcode : code <> []) by (destruct code; [cbn in Hs; lia|discriminate]).
+  assert (Hbody : body <> []) by (unfold body; destruct code; [congruence|discriminate]).
+  assert (Hls : ls <> []) by (unfold ls; destruct legacy; [destruct body; discriminate|discriminate]).
+  assert (Hok : Forall gline_ok ls).
+  { unfold ls. destruct legacy.
+    - apply Forall_app. split; [apply gls_ok; exact HL|constructor; [apply dir_gl_ok; auto|constructor]].
+    - constructor; [apply dir_gl_ok; auto|apply gls_ok; exact HL]. }
+  assert (Htext : loadprint_gen L legacy m code start = gen_fill L 5 ++ gen_join L 9 (map gl_text ls)).
+  { unfold loadprint_gen, ls. destruct legacy.
+    - rewrite map_app. cbn [map]. rewrite dir_gl_text. unfold body. rewrite gls_text by exact HL. reflexivity.
+    - cbn [map]. rewrite dir_gl_text. unfold body. rewrite gls_text by exact HL. reflexivity. }
+  pose proof (doc_lex L ls HL Hok Hls) as Hlex.
+  pose proof (fill_es L HL 5 []) as Fe0.
+  destruct (fill_g L 5 []) as [[fi0 lead0] fe0].
+  (* facts about the elements of the lines *)
+  assert (Hle : forall l pre, In l ls -> line_elem (gl_elem l pre)).
+  { intros l pre Hin. unfold ls in Hin. destruct legacy.
+    - apply in_app_or in Hin. destruct Hin as [Hin|[<-|[]]]; [apply (gls_elems L true m code 50 l pre HL Hin)|exact I].
+    - destruct Hin as [<-|Hin]; [exact I|apply (gls_elems L false m code 50 l pre HL Hin)]. }
+  assert (Hlp : forall l pre, In l ls -> hblank pre -> elem_ok (gl_elem l pre) /\ wplain (gl_elem l pre)).
+  { assert (Hd : forall kw pre, (kw = s2t "ORG" \/ kw = s2t "END") -> elem_ok (gl_elem (dir_gl L kw start) pre) /\ wplain (gl_elem (dir_gl L kw start) pre)).
+    { intros kw pre Hk. cbn [dir_gl gl_elem elem_ok wplain].
+      assert (Hkw : dir_kw_ok (ly_case L 3 kw) "org" \/ dir_kw_ok (ly_case L 3 kw) "end")
+        by (destruct Hk as [-> | ->]; [left; apply case_org; exact HL|right; apply case_end; exact HL]).
+      destruct Hkw as [Hk1|Hk1].
+      - destruct (dir_kw_facts _ "org" (or_introl eq_refl) Hk1) as [T1 [T2 [T3 _]]].
+        split; [split; [exact T1|split; [exact T2|repeat constructor; cbn; discriminate]]|].
+        unfold lower_is, dir_kw_ok in *. rewrite Hk1. split; reflexivity.
+      - destruct (dir_kw_facts _ "end" (or_intror eq_refl) Hk1) as [T1 [T2 [T3 _]]].
+        split; [split; [exact T1|split; [exact T2|repeat constructor; cbn; discriminate]]|].
+        unfold lower_is, dir_kw_ok in *. rewrite Hk1. split; reflexivity. }
+    assert (Hi : forall l pre, In l body -> hblank pre -> elem_ok (gl_elem l pre) /\ wplain (gl_elem l pre)).
+    { intros l pre Hin Hp. split.
+      - apply (proj2 (gls_elems L legacy m code 50 l pre HL Hin) cfg eq_refl eq_refl (proj2 Hw) Hp).
+      - clear - Hin HL. unfold body in Hin. revert Hin. generalize 50. induction code as [|i t IH]; intros k Hin; [destruct Hin|].
+        cbn [gls] in Hin. destruct Hin as [<-|Hin]; [cbn [instr_gl gl_elem wplain]; apply gen_op_plain; exact HL|apply (IH (k + 20) Hin)]. }
+    intros l pre Hin Hp. unfold ls in Hin. destruct legacy.
+    - apply in_app_or in Hin. destruct Hin as [Hin|[<-|[]]]; [apply Hi; assumption|apply Hd; auto].
+    - destruct Hin as [<-|Hin]; [apply Hd; auto|apply Hi; assumption]. }
+  pose proof (join_shape L HL ls Hls Hle 9 lead0) as Jsh.
+  pose proof (join_forall L (fun x => elem_ok x /\ wplain x) ls HL Hlp ltac:(split; exact I) ltac:(intros c; split; exact I) 9 lead0) as Jall.
+  (* the code as elements *)
+  pose proof (gls_line_of L cfg code HL 50) as Hlo. fold legacy m body in Hlo.
+  assert (Hden : let '(_, _, es) := join_g L 9 ls lead0 in
+            (legacy = false -> exists pre rest, es = EDir (ly_case L 3 (s2t "ORG")) [num_tok (Z.to_N start)] :: rest /\ denotes cfg rest code /\ hblank pre) /\
+            (legacy = true -> exists bodyes, es = bodyes ++ [EDir (ly_case L 3 (s2t "END")) [num_tok (Z.to_N start)]] /\ denotes cfg bodyes code)).
+  { unfold ls. destruct legacy.
+    - pose proof (join_denotes_then L HL cfg body (dir_gl L (s2t "END") start) code Hlo 9 lead0) as J.
+      destruct (join_g L 9 (body ++ [dir_gl L (s2t "END") start]) lead0) as [[its cl] es].
+      split; [discriminate|]. intros _. destruct J as [bodyes [pre [-> Hb]]]. exists bodyes. split; [reflexivity|exact Hb].
+    - destruct body as [|l2 t2] eqn:Eb; [congruence|].
+      change (join_g L 9 (dir_gl L (s2t "ORG") start :: l2 :: t2) lead0) with
+        (let '(p', lead1) := absorb (snd (gl_last (dir_gl L (s2t "ORG") start))) (ly_eolpre L 9) in
+         let '(fi, lead2, fe) := fill_g L (9 + 3) lead1 in
+         let '(ri, cl, re) := join_g L (9 + 7) (l2 :: t2) lead2 in
+         (gl_init (dir_gl L (s2t "ORG") start) lead0 ++ [(fst (gl_last (dir_gl L (s2t "ORG") start)), p')] ++ fi ++ ri, cl,
+          gl_elem (dir_gl L (s2t "ORG") start) (ly_eolpre L 9) :: fe ++ re)).
+      destruct (absorb _ _) as [p' lead1].
+      pose proof (fun es c H => fill_denotes L HL cfg (9 + 3) lead1 es c H) as Fd. destruct (fill_g L (9 + 3) lead1) as [[fi lead2] fe].
+      pose proof (join_denotes L HL cfg (l2 :: t2) code Hlo (9 + 7) lead2) as J.
+      destruct (join_g L (9 + 7) (l2 :: t2) lead2) as [[ri cl] re].
+      split; [|discriminate]. intros _. exists (ly_eolpre L 9), (fe ++ re). split; [reflexivity|]. split; [apply Fd; exact J|apply (lok_eolpre L HL)]. }
+  destruct (join_g L 9 ls lead0) as [[its cl] es].
+  destruct Jsh as [Sh [x [t [Ees Hx]]]].
+  (* the whole document *)
+  set (doc := fe0 ++ es) in *.
+  assert (Hdne : doc <> []) by (unfold doc; rewrite Ees; destruct fe0; discriminate).
+  assert (Hdall : Forall (fun x => elem_ok x /\ wplain x) doc).
+  { unfold doc. apply Forall_app. split; [|exact Jall]. destruct Fe0 as [->|[->|[c [-> _]]]]; repeat constructor. }
+  assert (Hdsh : shape_ok doc).
+  { unfold doc. destruct Fe0 as [->|[->|[c [-> _]]]]; cbn [app]; [exact Sh| |].
+    - rewrite Ees in *. split; [destruct x; try contradiction; exact I|exact Sh].
+    - rewrite Ees in *. split; [exact I|exact Sh]. }
+  destruct (doc_toks_facts doc (ly_final_nl L) Hdne Hdall) as [Cl Pl].
+  unfold compile_warrior. fold legacy m. rewrite Htext, Hlex.
+  rewrite (counts_modelled_plain _ Pl). cbn [negb].
+  destruct (scan_input_plain _ Cl Pl) as [syms Es].
+  change (pass_loop cfg (S max_for_passes) (doc_toks doc (ly_final_nl L)))
+    with (match scan_input (doc_toks doc (ly_final_nl L)) with
+          | None => None
+          | Some None => Some None
+          | Some (Some (syms, for_seen)) =>
+            if for_seen then
+              match for_expand (doc_toks doc (ly_final_nl L)) (with_constants cfg syms) with
+              | None => None
+              | Some None => None
+              | Some (Some r) => pass_loop cfg max_for_passes (fr_tokens r)
+              end
+            else Some (Some (doc_toks doc (ly_final_nl L)))
+          end).
+  rewrite Es.
+  rewrite (parse_doc doc (ly_final_nl L)); [|eapply Forall_impl; [|exact Hdall]; intros y [A _]; exact A|exact Hdsh].
+  exists (doc_meta doc (mkPM [] [] [])).
+  assert (Hpre : denotes cfg fe0 []) by (destruct Fe0 as [->|[->|[c [-> Hc]]]]; repeat constructor; assumption).
+  destruct (legacy) eqn:El.
+  - destruct Hden as [_ Hd]. destruct (Hd eq_refl) as [bodyes [-> Hb]]. unfold doc. rewrite app_assoc.
+    apply compile_doc88; try assumption; [apply case_end; exact HL|].
+    (* fillers in front of the body denote nothing *)
+    clear - Hpre Hb. remember (@nil instr) as nocode eqn:En. revert En.
+    induction Hpre as [|i optext sga sgb cmt es0 code0 Ho Hc H IH|es0 code0 H IH|c es0 code0 Hc H IH]; intros En; try discriminate En; cbn [app].
+    + exact Hb.
+    + constructor. apply IH. exact En.
+    + constructor; [exact Hc|apply IH; exact En].
+  - destruct Hden as [Hd _]. destruct (Hd eq_refl) as [pre [rest [-> [Hb Hp]]]]. unfold doc.
+    apply compile_doc94; try assumption. apply case_org; exact HL.
+Qed.
+
+(* ---------- the layouts loadprint draws from its style number are covered ---------- *)
+Lemma recase_recasing s k : recasing (recase s k).
+Proof.
+  intros t. unfold recase.
+  assert (G : forall t j acc orig, Forall2 (fun a b => lower_c a = lower_c b) acc orig ->
+      Forall2 (fun a b => lower_c a = lower_c b)
+        (snd (fold_left (fun (st : N * text) c => let '(j, acc) := st in
+               (j + 1, acc ++ [if pick s (k + j) 2 =? 0 then lower_c c else c])) t (j, acc))) (orig ++ t)).
+  { clear. induction t as [|c t IH]; intros j acc orig Ha; cbn [fold_left snd]; [rewrite app_nil_r; exact Ha|].
+    replace (orig ++ c :: t) with ((orig ++ [c]) ++ t) by (rewrite <- app_assoc; reflexivity).
+    apply IH. apply Forall2_app; [exact Ha|]. constructor; [|constructor].
+    destruct (pick s (k + j) 2 =? 0); [apply C09Proof.lower_c_idem|reflexivity]. }
+  destruct (pick s k 3) as [|[p|p|]].
+  - unfold lower. induction t as [|c t IH]; cbn [map]; constructor; [apply C09Proof.lower_c_idem|exact IH].
+  - apply (G t 0 [] []). constructor.
+  - apply (G t 0 [] []). constructor.
+  - induction t as [|c t IH]; constructor; [reflexivity|exact IH].
+Qed.
+
+Lemma lay_of_ok s : layout_ok (lay_of s).
+Proof.
+  constructor; cbn [lay_of ly_gap ly_optgap ly_case ly_eolpre ly_fill ly_comment].
+  - intros k. unfold gap. destruct (pick s k 4) as [|[p|[p|p|]|]]; (split; [repeat constructor; cbn; discriminate|discriminate]).
+  - intros k. unfold optgap. destruct (pick s k 3) as [|[p|[p|p|]|]]; repeat constructor; cbn; discriminate.
+  - intros k. apply recase_recasing.
+  - intros k. destruct (pick s k 4 =? 0); repeat constructor; cbn; discriminate.
+  - intros k c H. destruct (pick s k 7) as [|[p|[p|p|]|]]; try discriminate H; inversion H; subst;
+      (eexists; split; [reflexivity|split; [repeat constructor; discriminate|reflexivity]]).
+  - intros k c H. destruct (pick s (k + 10) 5); [|discriminate H]. inversion H; subst. unfold lp_comment.
+    destruct (pick s (k + 12) 3) as [|[p|p|]]; (eexists; split; [reflexivity|split; [repeat constructor; discriminate|reflexivity]]).
+Qed.
+
+(* the assembler half of C09 at full strength: under EVERY layout style loadprint can choose *)
+Theorem asm_loadprint s cfg code start :
+  validate cfg = true -> c_size cfg <= 2147483648 -> wf_code cfg code ->
+  (0 <= start < Z.of_nat (length code))%Z -> N.of_nat (length code) <= c_len cfg ->
+  exists meta, compile_warrior cfg (loadprint s (c_mode cfg =? 0) (c_size cfg) code start) = COk code start meta.
+Proof. intros. rewrite loadprint_as_gen. apply asm_loadprint_gen; try assumption. apply lay_of_ok. Qed.
